@@ -116,6 +116,25 @@ func lower(s string) string {
 
 // ---- bundle -----------------------------------------------------------------------
 
+type switchWriter struct{ w io.Writer }
+
+func (s *switchWriter) Write(p []byte) (int, error) { return s.w.Write(p) }
+
+// writeBundleTo writes b into w, either directly or - viaCW - through an exported
+// CountingWriter of the caller's that has already counted a preamble written
+// elsewhere (the preamble goes to a sink, so w receives the bundle alone).
+func writeBundleTo(b *bundle.Bundle, w io.Writer, viaCW bool) (int64, error) {
+	if !viaCW {
+		return b.WriteTo(w)
+	}
+	sw := &switchWriter{w: io.Discard}
+	cw := bundle.NewCountingWriter(sw)
+	cw.Write([]byte("an earlier artifact written through the same counting writer"))
+	sw.w = w
+	return b.WriteTo(cw)
+}
+
+
 func bundleInst(c *core.Ctx, label string, shareParsed bool) *inst {
 	var lb *gen.LBundle
 	for {
@@ -153,9 +172,10 @@ func sharedBuiltBundleInst(c *core.Ctx, label string) *inst {
 		}
 	}
 	in := &inst{name: label + ":Bundle.WriteTo(shared hand-built)", writer: true}
+	viaCW := c.Chance(label+".viaCallersCountingWriter", 1, 4)
 	var last atomic.Int64
 	in.run = func(w io.Writer) error {
-		n, err := shared.WriteTo(w)
+		n, err := writeBundleTo(shared, w, viaCW)
 		last.Store(n)
 		return err
 	}
@@ -166,6 +186,7 @@ func sharedBuiltBundleInst(c *core.Ctx, label string) *inst {
 
 func bundleInstOf(c *core.Ctx, label string, lb *gen.LBundle, shareParsed bool) *inst {
 	in := &inst{name: label + ":Bundle.WriteTo", writer: true}
+	viaCW := c.Chance(label+".viaCallersCountingWriter", 1, 4)
 	var last atomic.Int64 // several tasks may run one instance concurrently
 	var shared *bundle.Bundle
 	if shareParsed {
@@ -177,14 +198,14 @@ func bundleInstOf(c *core.Ctx, label string, lb *gen.LBundle, shareParsed bool) 
 	if shared != nil {
 		in.name = label + ":Bundle.WriteTo(shared parsed)"
 		in.run = func(w io.Writer) error {
-			n, err := shared.WriteTo(w)
+			n, err := writeBundleTo(shared, w, viaCW)
 			last.Store(n)
 			return err
 		}
 		in.sharedHash = func() uint64 { return hashBundle(shared) }
 	} else {
 		in.run = func(w io.Writer) error {
-			n, err := lb.ToRepo().WriteTo(w)
+			n, err := writeBundleTo(lb.ToRepo(), w, viaCW)
 			last.Store(n)
 			return err
 		}
